@@ -100,13 +100,13 @@ def monotone(ctx, rule):
             if t == ("param", "string"):
                 return "x" if atoms["nonempty"] else ""
             if t[0] == "call" and t[1].endswith(".match") and t[1][:-6] in known_atoms:
-                return atoms[known_atoms[t[1][:-6]]]
+                return atoms[known_atoms[t[1][:-6]]] or None  # a match object or None
             if t[0] == "method" and t[1] == "match" and t[2][0] == "global" and t[2][1] in known_atoms:
-                return atoms[known_atoms[t[2][1]]]
+                return atoms[known_atoms[t[2][1]]] or None
             if t[0] == "method" and t[1] == "match" and t[2][0] == "phi":
                 g = F.simplify(t[2], opts)
                 if g[0] == "global" and g[1] in known_atoms:
-                    return atoms[known_atoms[g[1]]]
+                    return atoms[known_atoms[g[1]]] or None
             if t[0] == "call" and t[1] == "builtins.bool" and len(t[2]) == 1:
                 return bool(eval_term(t[2][0], leaf))
             if t[0] in ("method", "call") and (t[1] == "match" or t[1].endswith(".match")):
@@ -123,7 +123,7 @@ def monotone(ctx, rule):
                         qm, _, qn = qual.rpartition(".")
                         try:
                             if picked is not None and repo.const(repo.mod(qm), qn) == picked:
-                                return atoms[atom]
+                                return atoms[atom] or None
                         except (Unknown, AnalysisError):
                             pass
             if t[0] == "call" and t[1] == "ural.tld.has_valid_tld":
